@@ -50,7 +50,8 @@ PostOK(p) ==
        /\ PRetry(n) = Range(p.retryC[n])
        /\ DOMAIN createdC'[n] = Range(p.createdC[n])
        /\ PCreate(n) = Range(p.createC[n])
-       /\ DOMAIN pingC'[n] = Range(p.pingC[n])
+       /\ DOMAIN pingC'[n] \ hist'.tests = Range(p.pingC[n])
+       /\ DOMAIN pingC'[n] \cap hist'.tests = Range(p.testC[n])
        \* every outside socket the node ever opened and has not closed belongs to a live exit entry
        /\ p.transports_open[n] = 2 * Cardinality({c \in DOMAIN exit'[n] : exit'[n][c].open})
   /\ PNet = LNet(p)
@@ -64,6 +65,7 @@ Step(e) ==
     [] e.a = "ExitReturn"    -> ExitReturn(e.x, e.cid, e.p)
     [] e.a = "LinkE2E"       -> LinkE2E(e.rp, e.c1, e.c2, e.o1, e.k1, e.o2, e.k2)
     [] e.a = "SendE2E"       -> SendE2E(e.o, e.cid)
+    [] e.a = "SendTest"      -> SendTest(e.o, e.cid)
     [] e.a = "RPForge"       -> RPForge(e.rp, e.cid)
     [] e.a = "TransportsReady" -> TransportsReady(e.n, e.cid)
     [] e.a = "Deliver"       -> \E d \in net : d.id = e.id /\ Deliver(d)
